@@ -515,6 +515,13 @@ def unamb (l : DLine) : Bool :=
     | _ => true)
   | some m => !gapFits patNL m.gapB && !gapFits (patNL ++ patOWS) m.gapB
 
+/-- not a line `x <num>` (a time operation of the command word `x`, which the grammar cannot tell
+from a multiplier) -/
+def xfree (l : DLine) : Bool :=
+  match l.mult, l.cmd with
+  | none, .time c _ => c != ['x']
+  | _, _ => true
+
 /-! ### explicit layout classes (sufficient for `layoutOk`) -/
 
 def blanksOnly (w : Text) : Bool := w.all (fun c => c == ' ' || c == '\t')
@@ -594,6 +601,34 @@ def goodLayoutFrom (first : Bool) : List GTok → List DLine → Bool
     goodLine l && goodLayoutFrom false l.after (l' :: ls)
 
 def goodLayout (lead : List GTok) (ls : List DLine) : Bool := goodLayoutFrom true lead ls
+
+/-! ### the canonical layout: one command per line, single blanks -/
+
+/-- a command in its source form with numbers as tokens -/
+def renderRaw : RawCmd → Text
+  | .full c n t => c ++ ' ' :: '"' :: n ++ '"' :: ' ' :: t
+  | .skill c n => c ++ ' ' :: '"' :: n ++ ['"']
+  | .time c t => c ++ ' ' :: t
+  | .console s => '!' :: 'd' :: 'e' :: 'b' :: 'u' :: 'g' :: ' ' :: '"' :: s ++ ['"']
+
+/-- the parser's range: command a `WORD`, name the inside of an `ESCAPED_STRING`, time a `SIGNED_NUMBER` -/
+def rawOk : RawCmd → Bool
+  | .full c n t => wordOk c && nameOk n && numTokOk t
+  | .skill c n => wordOk c && nameOk n
+  | .time c t => wordOk c && numTokOk t
+  | .console s => nameOk s
+
+def canonLine (r : RawCmd) (after : List GTok) : DLine :=
+  ⟨none, r, [.white [' ']], [.white [' ']], after⟩
+
+def canonLines : List RawCmd → List DLine
+  | [] => []
+  | [r] => [canonLine r []]
+  | r :: r' :: rs => canonLine r [.white ['\n']] :: canonLines (r' :: rs)
+
+/-- `x<m> <operation>` in the canonical layout -/
+def multLine (m : Text) (r : RawCmd) : DLine :=
+  ⟨some ⟨m, [], [.white [' ']]⟩, r, [.white [' ']], [.white [' ']], []⟩
 
 /-! ## numbers, operations, `expr` -/
 
